@@ -284,24 +284,25 @@ func (svc *service) stop() {
 }
 
 func (svc *service) publish(msg *message.PublishMessage, onComplete OnCompleteFunc) error {
-	_, err := svc.writeMessage(msg)
+	// The message is put into its ack queue before the sender can see it (see
+	// writeRequest): the acknowledgement may arrive before this call returns.
+	var register func() error
+
+	switch msg.QoS() {
+	case message.QosAtLeastOnce:
+		register = func() error { return svc.sess.Pub1ack.Wait(msg, onComplete) }
+
+	case message.QosExactlyOnce:
+		register = func() error { return svc.sess.Pub2out.Wait(msg, onComplete) }
+	}
+
+	_, err := svc.writeRequest(msg, register)
 	if err != nil {
 		return fmt.Errorf("(%s) Error sending %s message: %v", svc.cid(), msg.Name(), err)
 	}
 
-	switch msg.QoS() {
-	case message.QosAtMostOnce:
-		if onComplete != nil {
-			return onComplete(msg, nil, nil)
-		}
-
-		return nil
-
-	case message.QosAtLeastOnce:
-		return svc.sess.Pub1ack.Wait(msg, onComplete)
-
-	case message.QosExactlyOnce:
-		return svc.sess.Pub2out.Wait(msg, onComplete)
+	if msg.QoS() == message.QosAtMostOnce && onComplete != nil {
+		return onComplete(msg, nil, nil)
 	}
 
 	return nil
@@ -310,11 +311,6 @@ func (svc *service) publish(msg *message.PublishMessage, onComplete OnCompleteFu
 func (svc *service) subscribe(msg *message.SubscribeMessage, onComplete OnCompleteFunc, onPublish OnPublishFunc) error {
 	if onPublish == nil {
 		return fmt.Errorf("onPublish function is nil. No need to subscribe")
-	}
-
-	_, err := svc.writeMessage(msg)
-	if err != nil {
-		return fmt.Errorf("(%s) Error sending %s message: %v", svc.cid(), msg.Name(), err)
 	}
 
 	var onc OnCompleteFunc = func(msg, ack message.Message, err error) error {
@@ -384,15 +380,15 @@ func (svc *service) subscribe(msg *message.SubscribeMessage, onComplete OnComple
 		return err2
 	}
 
-	return svc.sess.Suback.Wait(msg, onc)
-}
-
-func (svc *service) unsubscribe(msg *message.UnsubscribeMessage, onComplete OnCompleteFunc) error {
-	_, err := svc.writeMessage(msg)
+	_, err := svc.writeRequest(msg, func() error { return svc.sess.Suback.Wait(msg, onc) })
 	if err != nil {
 		return fmt.Errorf("(%s) Error sending %s message: %v", svc.cid(), msg.Name(), err)
 	}
 
+	return nil
+}
+
+func (svc *service) unsubscribe(msg *message.UnsubscribeMessage, onComplete OnCompleteFunc) error {
 	var onc OnCompleteFunc = func(msg, ack message.Message, err error) error {
 		onComplete := onComplete
 
@@ -446,18 +442,23 @@ func (svc *service) unsubscribe(msg *message.UnsubscribeMessage, onComplete OnCo
 		return err2
 	}
 
-	return svc.sess.Unsuback.Wait(msg, onc)
+	_, err := svc.writeRequest(msg, func() error { return svc.sess.Unsuback.Wait(msg, onc) })
+	if err != nil {
+		return fmt.Errorf("(%s) Error sending %s message: %v", svc.cid(), msg.Name(), err)
+	}
+
+	return nil
 }
 
 func (svc *service) ping(onComplete OnCompleteFunc) error {
 	msg := message.NewPingreqMessage()
 
-	_, err := svc.writeMessage(msg)
+	_, err := svc.writeRequest(msg, func() error { return svc.sess.Pingack.Wait(msg, onComplete) })
 	if err != nil {
 		return fmt.Errorf("(%s) Error sending %s message: %v", svc.cid(), msg.Name(), err)
 	}
 
-	return svc.sess.Pingack.Wait(msg, onComplete)
+	return nil
 }
 
 func (svc *service) isDone() bool {
